@@ -404,3 +404,55 @@ Definition packet_decode (l : list N) : decoded :=
       let newformat := match l with t :: _ => 64 <=? t mod 128 | [] => false end in
       decode_body tag newformat body
   end.
+
+(* ------------------------------------------------------------------------------------------------ *)
+(* The hashed part of a signature as the PacketSigPrepare* functions build it (:8598-9320): a list of   *)
+(* subpackets (type, critical, body) per RFC 4880 5.2.3.x / 4880bis, framed by `subpacket`             *)
+(* ------------------------------------------------------------------------------------------------ *)
+Definition sp := (N * bool * list N)%type.
+Definition area_of (l : list sp) : list N := concat (map (fun s : sp => let '(t, c, b) := s in subpacket t c b) l).
+Definition prepared (version type pkalgo hashalgo : N) (l : list sp) : list N :=
+  version :: type :: pkalgo :: hashalgo :: be2 (len (area_of l)) ++ area_of l.
+
+Definition sp_issuer (crit : bool) (issuer : list N) : list sp :=
+  if (length issuer =? 20)%nat then [(16, crit, skipn 12 issuer)]
+  else if (length issuer =? 8)%nat then [(16, crit, issuer)] else [].
+Definition sp_issuerfpr4 (issuer : list N) : list sp :=
+  if (length issuer =? 20)%nat then [(33, false, 4 :: issuer)] else [].
+Definition sp_opt_time (t : N) (v : N) : list sp := if v mod 18446744073709551616 =? 0 then [] else [(t, false, be4 v)].
+Definition sp_policy (p : list N) : list sp := match p with [] => [] | _ => [(26, false, p)] end.
+(* 5.2.3.16: four flag octets (human readable), two-octet name length, two-octet value length, name, value *)
+Definition sp_notation (nv : list N * list N) : sp :=
+  (20, false, [128; 0; 0; 0] ++ be2 (len (fst nv)) ++ be2 (len (snd nv)) ++ fst nv ++ snd nv).
+Definition sp_prefs (flags : list N) (bis : bool) : list sp :=
+  [(21, false, [10; 9; 8]); (22, false, [1]); (23, false, [128]); (27, false, flags); (30, false, [if bis then 3 else 1])].
+Definition sp_aead_prefs (bis : bool) : list sp := if bis then [(34, false, [1; 2])] else [].
+
+Definition prep_self (type pk h sigtime keyexp : N) (flags issuer : list N) (bis : bool) : list N :=
+  prepared 4 type pk h ([(2, false, be4 sigtime)] ++ sp_opt_time 9 keyexp ++ [(11, false, [9; 10])] ++ sp_issuer false issuer
+                        ++ sp_prefs flags bis ++ sp_issuerfpr4 issuer ++ sp_aead_prefs bis).
+Definition prep_revoker (pk h sigtime : N) (flags issuer : list N) (pk2 : N) (revoker : list N) (bis : bool) : list N :=
+  prepared 4 31 pk h ([(2, false, be4 sigtime); (11, false, [9; 10])]
+                      ++ (match revoker with [] => [] | _ => [(12, true, 128 :: pk2 :: firstn 20 revoker)] end)
+                      ++ sp_issuer false issuer ++ sp_prefs flags bis ++ sp_issuerfpr4 issuer ++ sp_aead_prefs bis).
+Definition prep_detached (type pk h sigtime sigexp : N) (policy issuer : list N) : list N :=
+  prepared 4 type pk h ([(2, false, be4 sigtime)] ++ sp_opt_time 3 sigexp ++ sp_issuer false issuer ++ sp_policy policy
+                        ++ (if (length issuer =? 20)%nat then [(33, false, 4 :: issuer)]
+                            else if (length issuer =? 32)%nat then [(33, false, 5 :: issuer)] else [])).
+Definition prep_detached_v5 (type pk h sigtime sigexp : N) (policy issuerfpr : list N) : list N :=
+  prepared 5 type pk h ([(2, false, be4 sigtime)] ++ sp_opt_time 3 sigexp ++ sp_policy policy
+                        ++ [(33, false, (if (length issuerfpr =? 20)%nat then 4 else if (length issuerfpr =? 32)%nat then 5 else 0) :: issuerfpr)]).
+Definition prep_revocation (type pk h sigtime revcode : N) (reason issuer : list N) : list N :=
+  prepared 4 type pk h ([(2, false, be4 sigtime)] ++ sp_issuer false issuer ++ [(29, false, revcode :: reason)] ++ sp_issuerfpr4 issuer).
+Definition prep_certification (type pk h sigtime sigexp : N) (policy issuer : list N) : list N :=
+  prepared 4 type pk h ([(2, false, be4 sigtime)] ++ sp_opt_time 3 sigexp ++ sp_issuer false issuer ++ sp_policy policy ++ sp_issuerfpr4 issuer).
+Definition prep_timestamp_hash (pk h sigtime : N) (policy issuer : list N) (tpk th : N) (thash : list N)
+    (notations : list (list N * list N)) : list N :=
+  prepared 4 64 pk h ([(2, true, be4 sigtime); (7, true, [0])] ++ sp_issuer true issuer ++ map sp_notation notations ++ sp_policy policy
+                      ++ [(31, true, tpk :: th :: thash)] ++ sp_issuerfpr4 issuer).
+Definition prep_timestamp_sig (pk h sigtime : N) (policy issuer target : list N) (notations : list (list N * list N)) : list N :=
+  prepared 4 64 pk h ([(2, true, be4 sigtime); (7, true, [0])] ++ sp_issuer true issuer ++ map sp_notation notations ++ sp_policy policy
+                      ++ [(32, true, target)] ++ sp_issuerfpr4 issuer).
+Definition prep_attestation (pk h sigtime : N) (policy issuer attested : list N) (notations : list (list N * list N)) : list N :=
+  prepared 4 22 pk h ([(2, true, be4 sigtime)] ++ sp_issuer true issuer ++ map sp_notation notations ++ sp_policy policy
+                      ++ sp_issuerfpr4 issuer ++ [(37, true, attested)]).
